@@ -6,7 +6,7 @@ PID = "C05"
 ECANCELED_NUM = 125   # Linux errno ECANCELED (Gen/Consts.v has the probed value; the driver prints the raw return value)
 PROP_V = ["Props/Properties_C05cv.v", "Props/Properties_C05mu.v", "Props/Properties_C05sw.v"]
 GEN_MODULES = ["Consts", "Sites"]
-FLOW_FILES = ['cv.c', 'mu_wait.c', 'sem_wait.c']
+FLOW_FILES = ['cv.c', 'mu_wait.c', 'sem_wait.c', 'note.c']
 REPLAY_HINT = "VRT_SEED=<seed> [VRT_MODE=<m>] _work/h/cv_mix | muwait_mix | cancel_mix"
 PARTIAL = ["nsync_sem_wait_with_cancel_ (all of sem_wait.c) and what it meets in note.c (nsync_note_notified_deadline_, notify, note_notify_child, seen from the "
            "cancel note) are modelled step by step in Model/SemWaitModel.v (any number of threads, notes, waiters per note; the minimum of the deadline and the "
